@@ -126,7 +126,7 @@ def build_real(config, comps, out_len, strategy, max_evaluations, tol=0.0, obser
     return r
 
 
-def build(config, history, comps, out_len, strategy="es", tol=0.5):
+def build(config, history, comps, out_len, strategy="es", tol=0.5, perform_kwargs=None):
     from sparseSpACE.spatiallyAdaptiveExtendSplit import SpatiallyAdaptiveExtendScheme
     from sparseSpACE.spatiallyAdaptiveCell import SpatiallyAdaptiveCellScheme
     from sparseSpACE.GridOperation import Integration
@@ -202,7 +202,8 @@ def build(config, history, comps, out_len, strategy="es", tol=0.5):
         sa.compute_benefits_for_operations = cb_wrapper
         sa.do_refinement = do_wrapper
 
-    r.result = sa.performSpatiallyAdaptiv(config["lmin"], config["lmax"], eo, tol=tol, print_output=False)
+    r.result = sa.performSpatiallyAdaptiv(config["lmin"], config["lmax"], eo, tol=tol, print_output=False,
+                                          **(perform_kwargs or {}))
     if eo.pointer != len(history):
         raise HarnessError("adaptive loop executed %d of %d scripted steps" % (eo.pointer, len(history)))
     return r
